@@ -258,6 +258,7 @@ impl<T: Elem + SatisfyTraits<Tr>, M: MX, Tr: TrX + ?Sized> World<T, M, Tr> {
             Sink::Drop => { drop(h); None }
             Sink::Downcast => { let v: T = h.downcast::<T>().expect("downcast to the real type failed"); let id = v.id(); let _w = elem::WindowOff::new(); drop(v); Some(id) }
             Sink::DowncastRef => { let id = h.downcast_ref::<T>().expect("downcast_ref to the real type failed").id(); drop(h); Some(id) }
+            Sink::DowncastUnchecked => { let v: T = unsafe { h.downcast_unchecked::<T>() }; let id = v.id(); let _w = elem::WindowOff::new(); drop(v); Some(id) }
             Sink::MutMoveB => {
                 let mut h = h;
                 let id = { let t = h.downcast_mut::<T>().expect("downcast_mut to the real type failed"); let _w = elem::WindowOff::new(); t.retag(); t.id() };
@@ -307,7 +308,7 @@ impl<T: Elem + SatisfyTraits<Tr>, M: MX, Tr: TrX + ?Sized> World<T, M, Tr> {
     fn check_seen(x: Mv, sink: Sink, seen: Option<u16>, out: &mut Out) {
         if T::SIZE == 0 { return; }
         match sink {
-            Sink::Downcast | Sink::DowncastRef | Sink::SwapW | Sink::SwapRaw => {
+            Sink::Downcast | Sink::DowncastRef | Sink::DowncastUnchecked | Sink::SwapW | Sink::SwapRaw => {
                 match seen {
                     Some(id) if mv_match(x, id) => {}
                     _ => out.fail(Class::Vec, "wrong-value", format!("removed value observed as {seen:?}, model says {x:?}")),
